@@ -21,6 +21,11 @@ pub fn run(o: &Opts) -> Res<()> {
             let fat = o.num("fat", 0);
             run_scenario(&out, seed, move |net| server(net, seed, v6, ro, nq, fat))?
         }
+        "lookup" => {
+            let kind = o.get("kind").unwrap_or("coop").to_owned();
+            let nn = o.num("n", 20) as usize;
+            run_scenario(&out, seed, move |net| lookup(net, seed, kind, nn))?
+        }
         "flood" => {
             let corpus = o.req("corpus")?.to_owned();
             run_scenario(&out, seed, move |net| flood(net, seed, corpus))?
@@ -266,5 +271,128 @@ async fn flood(net: Net, seed: u64, corpus: String) {
     api_local_addr(&net, &dht, me).await;
     let s = search(&net, &dht, me, 1, ih, false);
     let _ = tokio::time::timeout(std::time::Duration::from_secs(60), s).await;
+    net.log(json!({"ev":"End"}));
+}
+
+
+/// Searches of one real node against an oracle network.
+///   kind = coop    (C02): every queried node answers within one second with the truly closest nodes
+///   kind = hostile (C03, C12): loss, delay, duplication, forged / replayed / mis-addressed responses, two concurrent searches
+///   kind = timing  (C04): silence, errors, answers around the 1.5 s boundaries, chains of ever closer nodes, send failures
+async fn lookup(net: Net, seed: u64, kind: String, n: usize) {
+    let mut rng = StdRng::seed_from_u64(seed);
+    let my_id = rand_id(&mut rng);
+    let target = rand_id(&mut rng);
+    let placement = seed % 3; // 0 uniform, 1 clustered around the target, 2 clustered around the searcher
+    let centre = match placement { 1 => Some(target), 2 => Some(my_id), _ => None };
+    let v6net = kind == "coop" && seed % 5 == 4;
+    let mut nodes = oracle_universe(&mut rng, n, v6net, centre);
+    let coop = kind == "coop";
+    // peers held by some nodes (both families; a node only sends the requester's family)
+    for vn in nodes.iter_mut() {
+        if rng.gen_range(0..3) == 0 {
+            let k = rng.gen_range(1..5);
+            let ps: Vec<SocketAddr> = (0..k).map(|j| if rng.gen_bool(0.7) { v4(172, 16, rng.gen(), j, 5000 + j as u16) } else { v6(3000 + rng.gen_range(0..50), 5000) }).collect();
+            vn.peers.insert(target, ps);
+        }
+    }
+    match kind.as_str() {
+        "hostile" => {
+            for vn in nodes.iter_mut() {
+                vn.mode = match rng.gen_range(0..10) { 0..=3 => Mode::Hostile, 4 => Mode::Silent, 5 => Mode::DelayMs(rng.gen_range(1000..5000)), _ => Mode::Answer };
+            }
+        }
+        "timing" => {
+            let variant = seed % 6;
+            for (i, vn) in nodes.iter_mut().enumerate() {
+                vn.mode = match variant {
+                    0 => Mode::Silent,                                  // nobody ever answers a search (bootstrap contacts do, see below)
+                    1 => *[Mode::DelayMs(0), Mode::DelayMs(1499), Mode::DelayMs(1500), Mode::DelayMs(1501), Mode::DelayMs(2999), Mode::Silent].get(i % 6).unwrap(),
+                    2 => if i % 2 == 0 { Mode::ErrorReply } else { Mode::Answer },
+                    3 => Mode::Answer,                                  // chain (set up below)
+                    4 => if i % 3 == 0 { Mode::Garbage } else { Mode::DelayMs(rng.gen_range(0..3000)) },
+                    _ => Mode::Answer,                                  // send failures (set up below)
+                };
+            }
+            if variant == 3 {
+                // each node names exactly one node closer to the target: a chain as deep as the universe
+                let mut order: Vec<usize> = (0..nodes.len()).collect();
+                order.sort_by_key(|&i| xor(&nodes[i].id, &target));
+                for w in (1..order.len()).rev() {
+                    let next = (nodes[order[w - 1]].id, nodes[order[w - 1]].addr);
+                    nodes[order[w]].truthful = false;
+                    nodes[order[w]].names_extra = vec![next];
+                }
+                nodes[order[0]].truthful = false;
+            }
+        }
+        _ => {}
+    }
+    let contacts: Vec<SocketAddr> = {
+        let k = rng.gen_range(1..=nodes.len().min(4));
+        let mut idx: Vec<usize> = (0..nodes.len()).collect();
+        for i in 0..k { let j = rng.gen_range(i..idx.len()); idx.swap(i, j); }
+        idx[..k].iter().map(|&i| nodes[i].addr).collect()
+    };
+    if kind == "timing" {
+        // the bootstrap contacts must answer find_node or the node never gets a table; they fall silent later (variant 0)
+        for vn in nodes.iter_mut() {
+            if contacts.contains(&vn.addr) && matches!(vn.mode, Mode::Silent | Mode::ErrorReply | Mode::Garbage) {
+                vn.mode = if seed % 6 == 0 { Mode::SilentFrom(60_000) } else { Mode::Answer };
+            }
+        }
+    }
+    let oracle = Arc::new(Mutex::new(OracleNet::new(nodes)));
+    oracle.lock().unwrap().answer_delay_max = if coop { 500 } else { 800 };
+    let addrs = oracle.lock().unwrap().addrs();
+    let mut more: Vec<SocketAddr> = (1..=250u8).map(|i| v4(10, 66, 0, i, 6881)).collect(); // sources of mis-addressed answers
+    more.push(v4(10, 250, 0, 1, 1));
+    net.with(|nn| {
+        nn.faults.max_latency_ms = if coop { 450 } else { 900 };
+        if kind == "hostile" {
+            nn.faults.drop_pct = (seed % 4) as u32 * 10;
+            nn.faults.dup_pct = 15;
+            nn.faults.extra_delay_pct = 15;
+            nn.faults.extra_delay_ms = 4000;
+        }
+    });
+    net.log(json!({"ev":"Universe","nodes":oracle.lock().unwrap().universe_json()}));
+    net.log(json!({"ev":"Scenario","coop":coop,"kind":kind}));
+    net.add_scripted(&addrs, Box::new(oracle.clone()));
+    let me: SocketAddr = if v6net { v6(9000, 7000) } else { v4(10, 0, 0, 1, 7000) };
+    let read_only = seed % 2 == 1;
+    let aport = if seed % 3 == 0 { Some(7777) } else { None };
+    let dht = start_node(&net, &NodeCfg { addr: me, id: Some(my_id), read_only, announce_port: aport, nodes: contacts, routers: vec![] });
+    let ok = tokio::time::timeout(std::time::Duration::from_secs(1200), wait_bootstrapped(&net, &dht, me, 1)).await.is_ok();
+    let _ = more;
+    if !ok {
+        net.log(json!({"ev":"End"}));
+        return;
+    }
+    if kind == "timing" && seed % 6 == 0 {
+        sleep_ms(61_000).await; // now everybody is silent
+    }
+    if kind == "timing" && seed % 6 == 5 {
+        // datagrams towards a third of the universe cannot be sent
+        let bad: Vec<SocketAddr> = addrs.iter().enumerate().filter(|(i, _)| i % 3 == 0).map(|(_, a)| *a).collect();
+        net.with(|nn| { for a in bad { nn.send_fail.insert(a); } });
+    }
+    // searches: an announcing one for the target, a concurrent one for another hash, then repeats
+    let other = rand_id(&mut rng);
+    let s1 = search(&net, &dht, me, 1, target, true);
+    let s2 = if kind != "coop" || seed % 2 == 0 { Some(search(&net, &dht, me, 2, other, kind == "hostile")) } else { None };
+    let _ = s1.await;
+    if let Some(s) = s2 { let _ = s.await; }
+    sleep_ms(rng.gen_range(100..3000)).await;
+    let s3 = search(&net, &dht, me, 3, target, coop);
+    let _ = s3.await;
+    if kind == "timing" && seed % 6 == 5 {
+        net.with(|nn| nn.send_fail_all = true);
+        let s4 = search(&net, &dht, me, 4, other, true);
+        let _ = s4.await;
+        net.with(|nn| nn.send_fail_all = false);
+    }
+    sleep_ms(6000).await;
+    api_state(&net, &dht, me).await;
     net.log(json!({"ev":"End"}));
 }
